@@ -485,6 +485,10 @@ def run(rep, programs):  # noqa: F811
     # equal to the number of zero bits, i.e. every path of the lower level gives back exactly what it took (R-BALANCE-LOWER)
     from props import c04
     c04.r_balance(rep, programs["core"])
+    # "in range": the huge path trusts a counter alone, so every table entry behind the managed range must have been written
+    # (to 0) by the initialisation - a skipped entry keeps whatever the caller's buffer held
+    from props import c06
+    c06.r_init_coverage(rep, programs["core"])
 
 
 def r_toggle_dispatch(rep, prog):
